@@ -139,7 +139,7 @@ def edited_project(pd, pick):
     import copy
     pd2 = copy.deepcopy(pd)
     cands = [(u, m) for u in pd2["udts"] if u.get("string") is None for m in u["members"]
-             if m["kind"] == "atomic" and not m["hidden"] and m["type"] in SAME_SIZE and m["name"] not in ("CTL", "Control")]
+             if m["kind"] == "atomic" and not m["hidden"] and m["type"] in SAME_SIZE and m["name"] not in ("CTL", "Control", "LEN", "DATA")]   # (an edit of LEN could turn a look-alike into a real string layout)
     if not cands:
         return None
     u, m = cands[pick % len(cands)]
